@@ -183,10 +183,15 @@ def project(res, elem):
                 fl = decode(fl if elem == "scalar" else np.asarray(fl).reshape(-1, 2), elem)
                 if fl != [v for r in rows for v in r]:
                     out["incoherent"] = "flatten=%s" % (fl,)
+            # ... and keep the element type of the array it was read from (int64 here), as rows of a list would
+            if "incoherent" not in out and rows and any(rows) and res.dtype != np.int64:
+                out["incoherent"] = "dtype=%s" % res.dtype
         except Exception as ex:
             out["incoherent"] = "%s: %s" % (type(ex).__name__, ex)
         return out
     if isinstance(res, np.ndarray):
+        if res.size and res.dtype != np.int64:
+            return {"other": "ndarray of dtype %s: %r" % (res.dtype, res.tolist())}
         if elem == "scalar":
             return {"v": decode(res, elem)} if res.ndim == 0 else {"f": decode(res, elem)}
         if res.ndim == 1 and res.shape[0] == 2:
@@ -293,13 +298,32 @@ def replay_batch(rec):
         if "e" not in exp and next(iter(exp.values())) not in ([], [[]]):
             out["nontriv"].append(zlib.crc32(json.dumps([lens, kind, rec["a"], b_enc]).encode()))
         bad = {}
-        for form, elem in VARIANTS:
+        # list operands are also handed over as integer ndarrays -- the SAME array objects for every variant of the
+        # case, as a caller reusing its index arrays would; a read must leave them as they are (numpy indexing of a
+        # list of rows never writes into its index arrays)
+        nd_parts = []
+
+        def as_nd(enc):
+            if "l" in enc and len(enc["l"]) > 0:
+                arr_ = np.array(enc["l"], dtype=np.int64)
+                nd_parts.append((arr_, list(enc["l"])))
+                return arr_
+            return py_index(enc)
+        if kind == "M":
+            ix_nd = None
+        elif single:
+            ix_nd = as_nd(rec["a"])
+        else:
+            ix_nd = (as_nd(rec["a"]), as_nd(b_enc))
+        for vi, (form, elem) in enumerate(VARIANTS):
             arr, okc = arrs[(form, elem)]
             if not okc:
                 out["skipped"] += 1       # constructor defect, reported by the attribute check
                 continue
             if kind == "M":
                 ix = ra.RaggedArray([list(r) for r in rec["a"]["m"]])
+            elif nd_parts and vi % 2 == 1:
+                ix = ix_nd
             elif single:
                 ix = a_ix
             else:
@@ -330,6 +354,10 @@ def replay_batch(rec):
                                                   model=model, observed=got))
         if bad:
             found(b_enc, exp, cls, mis, {"%s/%s" % k: v for k, v in bad.items()})
+        changed = [(arr_.tolist(), orig) for arr_, orig in nd_parts if arr_.tolist() != orig]
+        if changed:
+            found(b_enc, exp, "reads/index-operand-modified", 0,
+                  {"flat+ndarray-lengths/scalar": ("index-array-modified", {"now": changed[0][0], "was": changed[0][1]})})
     # reads must not have changed the arrays
     for (form, elem), (arr, okc) in arrs.items():
         if okc and [decode(r, elem) for r in arr] != [list(range(10 * r, 10 * r + l)) for r, l in enumerate(lens)]:
